@@ -28,7 +28,7 @@ type FakeEth struct {
 	PeerList []ethnode.PeerInfo
 	Block    uint64
 	Calls    []NodeCall
-	Apply    bool  // apply connect/disconnect calls to PeerList
+	Apply    bool   // apply connect/disconnect calls to PeerList
 	FailOn   string // method that fails
 }
 
